@@ -22,13 +22,15 @@ PROPERTY = "C07"
 LEVEL = "model_checking"
 TECHNIQUE = ("bounded symbolic execution of the real cdp_rho / cdp_eps (cdp_delta as an uninterpreted function) and of the real cdp_delta (exp, log1p, log "
              "uninterpreted) with the 1000-step bisections cut to K steps; every comparison forks; obligations are the search invariants and term "
-             "equality with the published Renyi-order formula; z3 (EUF + NRA); counterexamples replayed by sweeping the real functions")
+             "equality with the published Renyi-order formula; plus an inductive cut of each search loop lifted from the current AST (prologue establishes "
+             "the bracket invariant; loop body from an arbitrary symbolic bracket preserves it and halves the bracket; epilogue from an arbitrary bracket "
+             "returns the sound end) which covers any iteration count; z3 (EUF + NRA); counterexamples replayed by sweeping the real functions")
 BOUNDS = {"quick": "K in {1,2,3,4} bisection steps (all 2^K paths), symbolic rho, eps, delta",
           "thorough": "K up to 7",
           "inductive": "both tiers: base / step / epilogue cut of each search loop from an arbitrary bracket satisfying the invariant: any number of iterations"}
 OUTSIDE = ("that the Renyi bound dominates the exact Gaussian delta (a theorem about distributions); monotonicity in each argument and 'mutually inverse "
-           "within numerical tolerance' (properties of a 10^6-evaluation float computation of a transcendental function); iterations beyond K (each "
-           "iteration runs the same code; the invariant argument is inductive but the induction is not mechanised)")
+           "within numerical tolerance' (properties of a 10^6-evaluation float computation of a transcendental function); loops that are not a plain "
+           "`for _ in range(<int>)` without break/continue/return (the inductive cut then ends without a verdict, exit 3, never an alarm)")
 ASSUMPTIONS = ["F(0, eps) = 0 (the code's own degenerate case) is the only fact assumed of cdp_delta in (a)",
                "exp / log1p / log are uninterpreted in (b): equality of applications is decided through equality of arguments",
                "rho, eps, delta > 0, delta < 1 where the code requires it"]
